@@ -47,17 +47,19 @@ Theorem C08_image_cp_fuel_ok_draw : forall img,
             Z.of_nat (length l) = sw (ir_size img) * sh (ir_size img).
 Proof. exact cp_fuel_ok_draw. Qed.
 
-(* rejection without panic, all inputs *)
+(* rejection without panic: pixel() for ALL points; draw_sub_image / sub_image for all areas in the range where the
+   bounds tests themselves are computable (direct_area_fits / area_fits, Proofs/Imageraw.v: beyond it the u32 sums of
+   image_raw.rs:229-230, resp. the `as i32` cast of point.rs:275-282, panic with overflow checks) *)
 Theorem C08_image_pixel_oob_none : forall img p,
   contains (origin_box (ir_size img)) p = false -> raw_pixel img p = None.
 Proof. exact pixel_oob_none. Qed.
 
 Theorem C08_image_draw_sub_image_rejects : forall img area,
-  ~ inside (ir_size img) area -> 0 <= sw (sz area) -> 0 <= sh (sz area) -> raw_draw_sub_image img area = [].
+  ~ inside (ir_size img) area -> direct_area_fits img area -> raw_draw_sub_image img area = [].
 Proof. exact draw_sub_image_rejects. Qed.
 
 Theorem C08_image_sub_image_outside_empty : forall d area o,
-  d_wf d -> size_nonneg area -> (forall p, contains (d_box d) p && contains area p = false) ->
+  d_wf d -> area_fits area -> (forall p, contains (d_box d) p && contains area p = false) ->
   image_draw (Img (sub_image d area) o) = [] /\ is_zero_sized (d_box (sub_image d area)) = true.
 Proof. exact sub_image_outside_empty. Qed.
 
